@@ -5,10 +5,23 @@ Model: `LiquerModel/CrashSteps.lean` (the step lists of the code **as fixed by D
 Every theorem quantifies over every initial directory content, every crash point `n` (number of completed
 steps), every `cut` (bytes of the next write that reached the disk) and payloads of any length; decoders
 are only assumed to accept the complete payloads of the state being written.
+
+Two crash semantics:
+* write-through (`crashAt`, sections 1-3): an `append` reaches the file at once; the crash cuts the next write;
+* buffered (`crashBuf`, `LiquerModel/CrashBuf.lean`, section "buffered writes"): what was written to a file that is
+  not closed yet sits in the buffer of the process; the kill loses an arbitrary suffix of it (any `keep`).
+  `buffered_reads_as_writethrough` (generic in the executor): a protocol that closes every file before it renames
+  it (`closedBeforeRename`) and leaves open files alone (`openUndisturbed`) holds, at every name that is not open
+  at the kill, what the write-through crash at the same point leaves there.  All fixed writers are such protocols
+  (`protocols_close_before_rename`, `protocols_open_undisturbed`), only temporaries are ever open
+  (`protocols_open_only_temporaries`) and no reader looks at a temporary, so every `c16_*` theorem holds for the
+  buffered crash as well (`c16_*_buffered`).  The step list of seeded change C16-2 (`os.replace` inside the `with`
+  block) fails `closedBeforeRename` and publishes an empty file (`c16_unflushed_rename_publishes_empty`).
 -/
 import LiquerProofs.Lemmas.CrashFlat
 import LiquerProofs.Lemmas.CrashTree
 import LiquerProofs.Lemmas.CacheXor
+import LiquerProofs.Lemmas.CrashBuf
 
 namespace Liquer.C16
 open Liquer Liquer.Crash
@@ -216,8 +229,224 @@ example : storeStepsT [] [['d'], ['f']] [7] [6] =
      .rename (.tmp [['d']]) (.mfile [['d'], ['f']])] := by decide
 example : ([['a']] : Key) ≠ [['d'], ['f']] ∧ ([['a']] : Key) ∉ ancestors [['d'], ['f']] := by decide
 
+/-! ## buffered writes
+
+The process buffers what it writes to a file until the file is closed; the kill after `n` steps loses, of every
+file still open, an arbitrary suffix of what was written to it since its `create` (`keep p` bytes survive, for
+any function `keep`).  A kill in the middle of a write is the kill after it with a smaller `keep`. -/
+
+/-- **generic**: under the two protocol checks, a name that is not open after `n` steps holds after the buffered
+crash what it holds after the write-through crash at the same point — whatever the kill loses -/
+theorem buffered_reads_as_writethrough {ν φ β : Type} [DecidableEq ν] {exec : φ → Step ν → φ} {get : φ → ν → β}
+    (L : FsLaws exec get) (steps : List (Step ν)) (hc : closedBeforeRename steps = true) (hu : openUndisturbed steps = true)
+    (n : Nat) (keep : ν → Nat) (fs : φ) (p : ν) (hp : p ∉ openAt steps n) :
+    get (crashBuf exec n keep steps fs) p = get (crashAt exec n 0 steps fs) p :=
+  Crash.buffered_reads_as_writethrough L steps hc hu n keep fs p hp
+
+/-- both concrete file systems satisfy the laws the generic theorem asks for -/
+theorem buffered_laws : FsLaws execC (fun (d : CDir) (p : FName) => AL.get d p) ∧ FsLaws execT (fun (t : Tree) (p : SName) => AL.get t p) :=
+  ⟨lawsC, lawsT⟩
+
+/-- **every fixed writer closes its temporary file before it renames it** -/
+theorem protocols_close_before_rename :
+    (∀ target b, closedBeforeRename (writeFileC target b) = true) ∧
+    (∀ c d st, closedBeforeRename (storeStepsC c d st) = true) ∧
+    (∀ c m, closedBeforeRename (storeMetaStepsC c m) = true) ∧
+    (∀ c d k, closedBeforeRename (removeStepsC c d k) = true) ∧
+    (∀ t k b mb, closedBeforeRename (storeStepsT t k b mb) = true) ∧
+    (∀ t k mb, closedBeforeRename (storeMetaStepsT t k mb) = true) ∧
+    (∀ t k, closedBeforeRename (removeStepsT t k) = true) :=
+  ⟨fun _ _ => (tidy_writeFileC _ _).cbr, fun _ _ _ => (tidy_storeStepsC _ _ _).cbr, fun _ _ => (tidy_storeMetaStepsC _ _).cbr,
+   fun _ _ _ => (tidy_removeStepsC _ _ _).cbr, fun _ _ _ _ => (tidy_storeStepsT _ _ _ _).cbr,
+   fun _ _ _ => (tidy_storeMetaStepsT _ _ _).cbr, fun _ _ => (tidy_removeStepsT _ _).cbr⟩
+
+/-- ... and while a file is open, nothing but its own writes and its `close` mentions it -/
+theorem protocols_open_undisturbed :
+    (∀ target b, openUndisturbed (writeFileC target b) = true) ∧
+    (∀ c d st, openUndisturbed (storeStepsC c d st) = true) ∧
+    (∀ c m, openUndisturbed (storeMetaStepsC c m) = true) ∧
+    (∀ c d k, openUndisturbed (removeStepsC c d k) = true) ∧
+    (∀ t k b mb, openUndisturbed (storeStepsT t k b mb) = true) ∧
+    (∀ t k mb, openUndisturbed (storeMetaStepsT t k mb) = true) ∧
+    (∀ t k, openUndisturbed (removeStepsT t k) = true) :=
+  ⟨fun _ _ => (tidy_writeFileC _ _).und, fun _ _ _ => (tidy_storeStepsC _ _ _).und, fun _ _ => (tidy_storeMetaStepsC _ _).und,
+   fun _ _ _ => (tidy_removeStepsC _ _ _).und, fun _ _ _ _ => (tidy_storeStepsT _ _ _ _).und,
+   fun _ _ _ => (tidy_storeMetaStepsT _ _ _).und, fun _ _ => (tidy_removeStepsT _ _).und⟩
+
+/-- **temporaries are the only files ever open**, at every point of every fixed writer (and the readers `readC`,
+`readBytesT`, `readMetaT`, `readSC` look at `state_*` / `data_*`, at `node` / `mfile` names only) -/
+theorem protocols_open_only_temporaries (n : Nat) :
+    (∀ c d st p, p ∈ openAt (storeStepsC c d st) n → isTmpC p) ∧
+    (∀ c m p, p ∈ openAt (storeMetaStepsC c m) n → isTmpC p) ∧
+    (∀ c d k p, p ∈ openAt (removeStepsC c d k) n → isTmpC p) ∧
+    (∀ t k b mb p, p ∈ openAt (storeStepsT t k b mb) n → isTmpT p) ∧
+    (∀ t k mb p, p ∈ openAt (storeMetaStepsT t k mb) n → isTmpT p) ∧
+    (∀ t k p, p ∈ openAt (removeStepsT t k) n → isTmpT p) :=
+  ⟨fun c d st p h => (tidy_storeStepsC c d st).creates p (openAt_creates _ (tidy_storeStepsC c d st).cbr n p h),
+   fun c m p h => (tidy_storeMetaStepsC c m).creates p (openAt_creates _ (tidy_storeMetaStepsC c m).cbr n p h),
+   fun c d k p h => (tidy_removeStepsC c d k).creates p (openAt_creates _ (tidy_removeStepsC c d k).cbr n p h),
+   fun t k b mb p h => (tidy_storeStepsT t k b mb).creates p (openAt_creates _ (tidy_storeStepsT t k b mb).cbr n p h),
+   fun t k mb p h => (tidy_storeMetaStepsT t k mb).creates p (openAt_creates _ (tidy_storeMetaStepsT t k mb).cbr n p h),
+   fun t k p h => (tidy_removeStepsT t k).creates p (openAt_creates _ (tidy_removeStepsT t k).cbr n p h)⟩
+
+/-! ### the file cache (and its XOR / Fernet variants: any codec), buffered -/
+
+theorem c16_filecache_store_buffered (c : FileCfg) (d : CDir) (st : CState) (ok : CodecAt c st) (n : Nat) (keep : FName → Nat) :
+    let r := readC c (crashBuf execC n keep (storeStepsC c d st) d) st.metadata.query
+    r = readC c d st.metadata.query ∨ r = (none, none) ∨
+    r = (some { metadata := { st.metadata with status := ready }, data := st.data }, some { st.metadata with status := ready }) := by
+  intro r
+  simp only [r, readC_buffered c _ (tidy_storeStepsC c d st)]
+  exact c16_filecache_store c d st ok n 0
+
+theorem c16_filecache_storeMeta_buffered (c : FileCfg) (d : CDir) (m : CMeta) (n : Nat) (keep : FName → Nat) :
+    let r := readC c (crashBuf execC n keep (storeMetaStepsC c m) d) m.query
+    r = readC c d m.query ∨ r = readC c (FileC.storeMeta c d m) m.query := by
+  intro r
+  simp only [r, readC_buffered c _ (tidy_storeMetaStepsC c m)]
+  exact c16_filecache_storeMeta c d m n 0
+
+theorem c16_filecache_remove_buffered (c : FileCfg) (d : CDir) (k : Str) (n : Nat) (keep : FName → Nat) :
+    let r := readC c (crashBuf execC n keep (removeStepsC c d k) d) k
+    r = readC c d k ∨ r = (none, none) := by
+  intro r
+  simp only [r, readC_buffered c _ (tidy_removeStepsC c d k)]
+  exact c16_filecache_remove c d k n 0
+
+/-- other entries are unaffected by a buffered crash inside `store`, `store_metadata`, `remove` -/
+theorem c16_filecache_frame_buffered (c : FileCfg) (d : CDir) (n : Nat) (keep : FName → Nat) :
+    (∀ st k', c.h k' ≠ c.h st.metadata.query → readC c (crashBuf execC n keep (storeStepsC c d st) d) k' = readC c d k') ∧
+    (∀ m k', c.h k' ≠ c.h m.query → readC c (crashBuf execC n keep (storeMetaStepsC c m) d) k' = readC c d k') ∧
+    (∀ k k', c.h k' ≠ c.h k → readC c (crashBuf execC n keep (removeStepsC c d k) d) k' = readC c d k') :=
+  ⟨fun st k' hne => by rw [readC_buffered c _ (tidy_storeStepsC c d st)]; exact c16_filecache_store_frame c d st k' hne n 0,
+   fun m k' hne => by rw [readC_buffered c _ (tidy_storeMetaStepsC c m)]; exact c16_filecache_storeMeta_frame c d m k' hne n 0,
+   fun k k' hne => by rw [readC_buffered c _ (tidy_removeStepsC c d k)]; exact c16_filecache_remove_frame c d k k' hne n 0⟩
+
+/-! ### the directory store, buffered -/
+
+theorem c16_filestore_store_buffered (t : Tree) (k : Key) (b mb : Data) (n : Nat) (keep : SName → Nat) :
+    let t' := crashBuf execT n keep (storeStepsT t k b mb) t
+    (readBytesT t' k = readBytesT t k ∧ readMetaT t' k = readMetaT t k) ∨
+    (readBytesT t' k = readBytesT t k ∧ readMetaT t' k = none) ∨
+    (readBytesT t' k = some b ∧ readMetaT t' k = none) ∨
+    (readBytesT t' k = some b ∧ readMetaT t' k = some mb) := by
+  intro t'
+  simp only [t', readBytesT_buffered _ (tidy_storeStepsT t k b mb), readMetaT_buffered _ (tidy_storeStepsT t k b mb)]
+  exact c16_filestore_store t k b mb n 0
+
+theorem c16_filestore_storeMeta_buffered (t : Tree) (k : Key) (mb : Data) (n : Nat) (keep : SName → Nat) :
+    let t' := crashBuf execT n keep (storeMetaStepsT t k mb) t
+    readBytesT t' k = readBytesT t k ∧
+    (readMetaT t' k = readMetaT t k ∨ readMetaT t' k = some mb ∨ readMetaT t' k = none) := by
+  intro t'
+  simp only [t', readBytesT_buffered _ (tidy_storeMetaStepsT t k mb), readMetaT_buffered _ (tidy_storeMetaStepsT t k mb)]
+  exact c16_filestore_storeMeta t k mb n 0
+
+theorem c16_filestore_remove_buffered (t : Tree) (k : Key) (n : Nat) (keep : SName → Nat) :
+    let t' := crashBuf execT n keep (removeStepsT t k) t
+    (readBytesT t' k = readBytesT t k ∨ readBytesT t' k = none) ∧
+    (readMetaT t' k = readMetaT t k ∨ readMetaT t' k = none ∨ readMetaT t' k = metaOf (none, (pairT t k).2)) := by
+  intro t'
+  simp only [t', readBytesT_buffered _ (tidy_removeStepsT t k), readMetaT_buffered _ (tidy_removeStepsT t k)]
+  exact c16_filestore_remove t k n 0
+
+theorem c16_filestore_frame_buffered (t : Tree) (k k' : Key) (b mb : Data) (hne : k' ≠ k) (hanc : k' ∉ ancestors k)
+    (n : Nat) (keep : SName → Nat) :
+    (readBytesT (crashBuf execT n keep (storeStepsT t k b mb) t) k' = readBytesT t k' ∧
+      readMetaT (crashBuf execT n keep (storeStepsT t k b mb) t) k' = readMetaT t k') ∧
+    (readBytesT (crashBuf execT n keep (storeMetaStepsT t k mb) t) k' = readBytesT t k' ∧
+      readMetaT (crashBuf execT n keep (storeMetaStepsT t k mb) t) k' = readMetaT t k') ∧
+    (readBytesT (crashBuf execT n keep (removeStepsT t k) t) k' = readBytesT t k' ∧
+      readMetaT (crashBuf execT n keep (removeStepsT t k) t) k' = readMetaT t k') := by
+  simp only [readBytesT_buffered _ (tidy_storeStepsT t k b mb), readMetaT_buffered _ (tidy_storeStepsT t k b mb),
+    readBytesT_buffered _ (tidy_storeMetaStepsT t k mb), readMetaT_buffered _ (tidy_storeMetaStepsT t k mb),
+    readBytesT_buffered _ (tidy_removeStepsT t k), readMetaT_buffered _ (tidy_removeStepsT t k)]
+  exact c16_filestore_frame t k k' b mb hne hanc n 0
+
+/-! ### the store-backed cache on a directory store, buffered -/
+
+theorem c16_storecache_on_filestore_store_buffered (deM : Data → Option CMeta) (deD : Str → Data → Option (Option Str))
+    (t : Tree) (p : Key) (b mb : Data) (m : CMeta) (v : Option Str)
+    (hm : deM mb = some m) (hr : m.status = ready) (hv : deD m.typeId b = some v) (n : Nat) (keep : SName → Nat) :
+    let r := readSC deM deD (crashBuf execT n keep (storeStepsT t p b mb) t) p
+    r = readSC deM deD t p ∨ r = none ∨ r = some { metadata := m, data := v } := by
+  intro r
+  simp only [r, readSC_buffered deM deD _ (tidy_storeStepsT t p b mb)]
+  exact c16_storecache_on_filestore_store deM deD t p b mb m v hm hr hv n 0
+
+theorem c16_storecache_on_filestore_storeMeta_buffered (deM : Data → Option CMeta) (deD : Str → Data → Option (Option Str))
+    (t : Tree) (p : Key) (mb : Data) (n : Nat) (keep : SName → Nat) :
+    let r := readSC deM deD (crashBuf execT n keep (storeMetaStepsT t p mb) t) p
+    r = readSC deM deD t p ∨ r = scOf deM deD ((pairT t p).1, some (.file mb)) := by
+  intro r
+  simp only [r, readSC_buffered deM deD _ (tidy_storeMetaStepsT t p mb)]
+  exact c16_storecache_on_filestore_storeMeta deM deD t p mb n 0
+
+theorem c16_storecache_on_filestore_remove_buffered (deM : Data → Option CMeta) (deD : Str → Data → Option (Option Str))
+    (t : Tree) (p : Key) (n : Nat) (keep : SName → Nat) :
+    let r := readSC deM deD (crashBuf execT n keep (removeStepsT t p) t) p
+    r = readSC deM deD t p ∨ r = none := by
+  intro r
+  simp only [r, readSC_buffered deM deD _ (tidy_removeStepsT t p)]
+  exact c16_storecache_on_filestore_remove deM deD t p n 0
+
+theorem c16_storecache_on_filestore_frame_buffered (deM : Data → Option CMeta) (deD : Str → Data → Option (Option Str))
+    (t : Tree) (p p' : Key) (b mb : Data) (hne : p' ≠ p) (hanc : p' ∉ ancestors p) (n : Nat) (keep : SName → Nat) :
+    readSC deM deD (crashBuf execT n keep (storeStepsT t p b mb) t) p' = readSC deM deD t p' ∧
+    readSC deM deD (crashBuf execT n keep (storeMetaStepsT t p mb) t) p' = readSC deM deD t p' ∧
+    readSC deM deD (crashBuf execT n keep (removeStepsT t p) t) p' = readSC deM deD t p' := by
+  simp only [readSC_buffered deM deD _ (tidy_storeStepsT t p b mb), readSC_buffered deM deD _ (tidy_storeMetaStepsT t p mb),
+    readSC_buffered deM deD _ (tidy_removeStepsT t p)]
+  exact c16_storecache_on_filestore_frame deM deD t p p' b mb hne hanc n 0
+
+/-! ### the protocol that renames before it closes (seeded change C16-2), and non-vacuity -/
+
+/-- `with open(tmp, "wb") as f: f.write(b); os.replace(tmp, target)` — the file is closed (flushed) under its final name -/
+def renameInsideWith {ν : Type} (tmp target : ν) (b : Data) : List (Step ν) :=
+  [.create tmp, .append tmp b, .rename tmp target, .close target]
+
+def demoTree : Tree := [(.node [['f']], .file [1])]
+
+/-- **negative witness**: the step list fails the check; every *completed* run and every *write-through* crash of it is
+indistinguishable from the fixed writer, but the kill between the rename and the close, with the buffer lost, leaves
+an **empty** file under the final name — `get_bytes` returns `b""`, neither the previous nor the new value -/
+theorem c16_unflushed_rename_publishes_empty :
+    closedBeforeRename (renameInsideWith (SName.tmp []) (.node [['f']]) [7, 8]) = false ∧
+    readBytesT demoTree [['f']] = some [1] ∧
+    readBytesT (crashBuf execT 3 (fun _ => 0) (renameInsideWith (.tmp []) (.node [['f']]) [7, 8]) demoTree) [['f']] = some [] ∧
+    readBytesT (crashBuf execT 3 (fun _ => 1) (renameInsideWith (.tmp []) (.node [['f']]) [7, 8]) demoTree) [['f']] = some [7] ∧
+    readBytesT (crashBuf execT 4 (fun _ => 0) (renameInsideWith (.tmp []) (.node [['f']]) [7, 8]) demoTree) [['f']] = some [7, 8] ∧
+    (∀ cut, readBytesT (crashAt execT 3 cut (renameInsideWith (.tmp []) (.node [['f']]) [7, 8]) demoTree) [['f']] = some [7, 8]) := by
+  refine ⟨by decide, by decide, by decide, by decide, by decide, fun cut => ?_⟩
+  show readBytesT (crashAt execT 3 0 (renameInsideWith (.tmp []) (.node [['f']]) [7, 8]) demoTree) [['f']] = some [7, 8]
+  decide
+
+-- the same on the flat cache directory
+example : closedBeforeRename (renameInsideWith tmpC (.state ['k']) [1, 2, 3]) = false := by decide
+example : AL.get (crashBuf execC 3 (fun _ => 0) (renameInsideWith tmpC (.state ['k']) [1, 2, 3]) demoOld) (.state ['k']) = some [] := by decide
+
+-- the fixed writer at the same points: the previous value until the rename, the new value after it
+example : readBytesT (crashBuf execT 3 (fun _ => 0) (writeFileT [] (.node [['f']]) [7, 8]) demoTree) [['f']] = some [1] := by decide
+example : readBytesT (crashBuf execT 4 (fun _ => 0) (writeFileT [] (.node [['f']]) [7, 8]) demoTree) [['f']] = some [7, 8] := by decide
+
+-- non-vacuity of the hypotheses of `buffered_reads_as_writethrough`: a concrete protocol passes both checks, a file is
+-- open in the middle of it, the names the reader looks at are not open
+example : closedBeforeRename (storeStepsC (demoCfg demoState) demoOld demoState) = true ∧
+    openUndisturbed (storeStepsC (demoCfg demoState) demoOld demoState) = true := by decide
+example : openAt (storeStepsC (demoCfg demoState) demoOld demoState) 8 = [tmpC] := by decide
+example : FName.state ['k'] ∉ openAt (storeStepsC (demoCfg demoState) demoOld demoState) 8 := by decide
+-- ... and the hypothesis `p ∉ openAt steps n` is needed: at the open temporary file the two semantics differ
+example : AL.get (crashBuf execC 8 (fun _ => 1) (storeStepsC (demoCfg demoState) demoOld demoState) demoOld) tmpC = some [1] := by decide
+example : AL.get (crashAt execC 8 0 (storeStepsC (demoCfg demoState) demoOld demoState) demoOld) tmpC = some [1, 2, 3] := by decide
+example : closedBeforeRename (storeStepsT [] [['d'], ['f']] [7] [6]) = true ∧ openUndisturbed (storeStepsT [] [['d'], ['f']] [7] [6]) = true := by decide
+example : openAt (storeStepsT [] [['d'], ['f']] [7] [6]) 4 = [.tmp [['d']]] := by decide
+
 end Liquer.C16
 
 -- OBLIGATIONS: Liquer.C16.c16_filecache_store Liquer.C16.c16_filecache_storeMeta Liquer.C16.c16_filecache_remove Liquer.C16.c16_filecache_store_frame Liquer.C16.c16_filecache_storeMeta_frame Liquer.C16.c16_filecache_remove_frame Liquer.C16.c16_xor Liquer.C16.c16_fernet
 -- OBLIGATIONS: Liquer.C16.c16_filestore_store Liquer.C16.c16_filestore_storeMeta Liquer.C16.c16_filestore_remove Liquer.C16.c16_filestore_frame
 -- OBLIGATIONS: Liquer.C16.c16_storecache_on_filestore_store Liquer.C16.c16_storecache_on_filestore_storeMeta Liquer.C16.c16_storecache_on_filestore_remove Liquer.C16.c16_storecache_on_filestore_frame
+-- OBLIGATIONS: Liquer.C16.buffered_reads_as_writethrough Liquer.C16.buffered_laws Liquer.C16.protocols_close_before_rename Liquer.C16.protocols_open_undisturbed Liquer.C16.protocols_open_only_temporaries Liquer.C16.c16_unflushed_rename_publishes_empty
+-- OBLIGATIONS: Liquer.C16.c16_filecache_store_buffered Liquer.C16.c16_filecache_storeMeta_buffered Liquer.C16.c16_filecache_remove_buffered Liquer.C16.c16_filecache_frame_buffered
+-- OBLIGATIONS: Liquer.C16.c16_filestore_store_buffered Liquer.C16.c16_filestore_storeMeta_buffered Liquer.C16.c16_filestore_remove_buffered Liquer.C16.c16_filestore_frame_buffered
+-- OBLIGATIONS: Liquer.C16.c16_storecache_on_filestore_store_buffered Liquer.C16.c16_storecache_on_filestore_storeMeta_buffered Liquer.C16.c16_storecache_on_filestore_remove_buffered Liquer.C16.c16_storecache_on_filestore_frame_buffered
